@@ -72,3 +72,10 @@ Definition sweep_oneshot_fail (rz : N) : list (N * sclass * N * N) :=
   flat_map (fun r => flat_map (fun c =>
      let a := N.max (need_simple_cls rz r c) (need_compress2_cls rz r c) in let b := estimateCCtxSize_internal rz (Z.of_N r) in
      if a <=? b then [] else [(r, c, a, b)]) all_classes) (tl rows).
+
+(* negative levels use table row 0 (with another targetLength): row 0 against the estimate of level 1 *)
+Definition sweep_neg (rz : N) : bool :=
+  forallb (fun c =>
+     (need_simple_cls rz 0 c <=? estimateCCtxSize_internal rz 1) &&
+     (need_compress2_cls rz 0 c <=? estimateCCtxSize_internal rz 1) &&
+     (need_stream_cls rz 0 c <=? estimateCStreamSize_internal rz 1)) all_classes.
